@@ -117,6 +117,8 @@ def check_views(P: Any, what: str) -> Optional[tuple[str, str]]:
                         return (f'map-get:{type(P).__name__}.{name}', f'after {what}: [{x.key!r}] is not the first match')
                     if x.key not in w:
                         return (f'map-in:{type(P).__name__}.{name}', f'after {what}: {x.key!r} in mapping is False')
+            except (ArithmeticError,):
+                pass  # a meta value that is an expression dividing by zero: evaluating it legitimately raises
             except Exception as e:  # noqa: BLE001
                 return (f'view-read-raised:{type(P).__name__}.{name}:{type(e).__name__}', f'mapping read of {name} after {what} raised {e!r}')
     return None
